@@ -426,7 +426,8 @@ def unionsAligned : Nat → Schemas → Ty → GoVal → GoVal → Bool
         | .struct fa, .struct fb => alignedFields (unionsAligned fuel ss) fields fa fb
         | _, _ => true) a b
     | .union fields nullable =>
-      ptrBoth nullable (fun x y => match x, y with
+      -- (a nil `*Union` and a non-nil one with no branch set both marshal to `null`)
+      (a.isNil == b.isNil) && ptrBoth nullable (fun x y => match x, y with
         | .union ba, .union bb => alignedBranches (unionsAligned fuel ss) fields ba bb
         | _, _ => true) a b
     | .alias t' => unionsAligned fuel ss t' a b
